@@ -41,7 +41,7 @@ prop("C04", "proof",
      "the pairing equation with non-identity points; proof_statement_binding: one proof accepted for two statements constructs an explicit collision of the challenge hash unless "
      "disclosed positions, disclosed scalars, presentation header and domain agree (challenge_octets_inj: the encoding is injective); proof_special_soundness: two accepted transcripts with the "
      "same Abar, Bbar, D, T1, T2 and different challenges determine e, r1, r3 and the hidden scalars by explicit formulas with Bbar = D r1 - Abar e, B = D r3 and "
-     "(sk + e) r3 Abar = r1 B (a signature on the disclosed + extracted messages; r1 = 0 gives sk = -e, r3 = 0 gives B = O). PARTIAL: bit flips of the proof are "
+     "(sk + e) r3 Abar = r1 B (a signature on the disclosed + extracted messages; r1 = 0 gives sk = -e, r3 = 0 gives B = O); proof_response_edit_reduces: a second accepted proof differing from an accepted one only in e^, only in r1^ or only in r3^ exhibits an explicit collision of the challenge hash (Abar, D are not the identity). PARTIAL: bit flips of the points and of the challenge field are "
      "decided by correspondence (the model's decision on every mutated instance equals zkryptium's) + sweep: all single-bit flips of proofs, whole-scalar truncation / extension, "
      "statement edits, and forgeries built without a signature (identity / Bv / P1 / Q1 families, torsion pairs outside the subgroup that cancel).", "DESIGN.md §10 C04")
 prop("C05", "proof",
